@@ -103,9 +103,20 @@ fn body() {
     let _ = result::map!(Ok::<u8, u8>(1), |x| x + 1); let _ = result::map_err!(Ok::<u8, u8>(1), |x| x + 1); let _ = result::and_then!(Ok::<u8, u8>(1), |x| Ok(x)); let _ = result::or_else!(Ok::<u8, u8>(1), |x| Err::<u8, u8>(x));
     let _ = result::unwrap_err_or_else!(Ok::<u8, u8>(1), |x| x);
 }
+// arguments that borrow from temporaries: they must live as long as std::cmp's would
+fn name(n: usize) -> String { "x".repeat(n) }
+fn temporaries() -> usize {
+    konst::min!(name(20).as_str(), name(3).as_str()).len()
+        + konst::max!(name(2).as_str(), name(3).as_str()).len()
+        + konst::min_by!(name(2).as_str(), name(3).as_str(), |a, b| konst::const_cmp!(a.len(), b.len())).len()
+        + konst::max_by!(name(2).as_str(), name(3).as_str(), |a, b| konst::const_cmp!(a.len(), b.len())).len()
+        + konst::min_by_key!(name(2).as_str(), name(3).as_str(), |s| s.len()).len()
+        + konst::max_by_key!(name(2).as_str(), name(3).as_str(), |s| s.len()).len()
+        + option::unwrap_or!(name(1).as_str().strip_prefix('x'), name(2).as_str()).len()
+}
 fn b2() -> Result<u8, u8> { let x = konst::try_!(Ok::<u8, u8>(3)); let (mut a, mut b, mut c) = (0u8, 0u8, 0u8); konst::try_rebind!{(a, b, c) = Ok::<(u8, u8, u8), u8>((1, 2, 3))} konst::rebind_if_ok!{(a, b) = Ok::<(u8, u8), u8>((1, 2))} Ok(x + a + b + c) }
 fn b3() -> Option<u8> { let x = konst::try_opt!(Some(3u8)); Some(x) }
-fn main() { body(); let _ = b2(); let _ = b3(); }
+fn main() { body(); let _ = b2(); let _ = b3(); let _ = temporaries(); }
 '''
 
 SH_C10 = r'''
@@ -368,6 +379,24 @@ MUST_FAIL = {
         "remainder_of_a_local": _fail("fn f() -> &'static str { let s = String::from(\"ab\"); konst::Parser::new(&s).trim().remainder() }"),
         "piece_of_a_local": _fail("fn f() -> &'static str { let s = String::from(\"a,b\"); konst::Parser::new(&s).split(',').unwrap().0 }"),
     },
+    "C15": {
+        # a reference is not the aggregate: moving the fields out of `&mut S` / `&S` would duplicate them
+        "destructure_braced_from_mut_ref": _fail("struct P { a: String, b: String }\nfn f(p: &mut P) -> (String, String) { konst::destructure!{P{a, b} = p} (a, b) }"),
+        "destructure_braced_from_mut_ref_expr": _fail("struct P { a: String, b: String }\nfn f(mut p: P) -> (String, String) { konst::destructure!{P{a, b} = &mut p} (a, b) }"),
+        "destructure_tuple_struct_from_mut_ref": _fail("struct T(String, String);\nfn f(mut p: T) -> (String, String) { konst::destructure!{T(a, b) = &mut p} (a, b) }"),
+        "destructure_tuple_from_mut_ref": _fail("fn f(mut p: (String, String)) -> (String, String) { konst::destructure!{(a, b): &mut (String, String) = &mut p} (a, b) }"),
+        "destructure_tuple_from_mut_ref_untyped": _fail("fn f(mut p: (String, String)) -> (String, String) { konst::destructure!{(a, b) = &mut p} (a, b) }"),
+        "destructure_array_from_mut_ref": _fail("fn f(mut p: [String; 2]) -> (String, String) { konst::destructure!{[a, b] = &mut p} (a, b) }"),
+        "destructure_array_from_mut_ref_typed": _fail("fn f(mut p: [String; 2]) -> (String, String) { konst::destructure!{[a, b]: &mut [String; 2] = &mut p} (a, b) }"),
+        "destructure_generic_const_fn_from_mut_ref": _fail("struct P<T> { a: T, b: T }\nconst fn f<T>(p: &mut P<T>) -> (T, T) { konst::destructure!{P{a, b}: &mut P<T> = p} (a, b) }"),
+        "destructure_type_path_from_mut_ref": _fail("struct P<T> { a: T, b: T }\nfn f(mut p: P<String>) -> (String, String) { konst::destructure!{P<String>, {a, b} = &mut p} (a, b) }"),
+        "destructure_braced_from_shared_ref": _fail("struct P { a: String, b: String }\nfn f(p: &P) -> (String, String) { konst::destructure!{P{a, b} = p} (a, b) }"),
+        "destructure_tuple_struct_from_shared_ref": _fail("struct T(String, String);\nfn f(p: &T) -> (String, String) { konst::destructure!{T(a, b) = p} (a, b) }"),
+        "destructure_array_from_shared_ref": _fail("fn f(p: &[String; 2]) -> (String, String) { konst::destructure!{[a, b] = p} (a, b) }"),
+        "destructure_box_is_not_the_struct": _fail("struct P { a: String, b: String }\nfn f(p: Box<P>) -> (String, String) { konst::destructure!{P{a, b} = p} (a, b) }"),
+        "destructure_drop_type_braced": _fail("struct P { a: String, b: String }\nimpl Drop for P { fn drop(&mut self) {} }\nfn f(p: P) -> (String, String) { konst::destructure!{P{a, b} = p} (a, b) }"),
+        "destructure_drop_type_tuple_struct": _fail("struct T(String, String);\nimpl Drop for T { fn drop(&mut self) {} }\nfn f(p: T) -> (String, String) { konst::destructure!{T(a, b) = p} (a, b) }"),
+    },
     "C20": {
         "to_bytes_of_a_local": _fail("fn f() -> &'static [u8] { let v = vec![97u8, 0]; let c = konst::ffi::cstr::from_bytes_until_nul(&v).unwrap(); konst::ffi::cstr::to_bytes(c) }"),
     },
@@ -405,6 +434,6 @@ def produce_for(prop, tier, seed, release, out_path):
             elif errs:
                 imp = "rejected"
             else:
-                imp = "COMPILES (a result outlives what it borrows from)"
+                imp = "COMPILES (a program that must be rejected: a result outlives what it borrows from, or a value is moved out twice)"
             f.write("%s.sigfail\t%d x%s\t%s\t-\tmust-fail\n" % (prop.lower(), k, n.encode().hex(), imp))
     return ""
